@@ -930,8 +930,22 @@ class Emitter:
                 return ("one", self.ex(e[3][0]), str(int(m.group(1)) // 8))
             if e[2] == "write_usized" and len(e[3]) == 2:
                 return ("one", self.ex(e[3][0]), self.ex(e[3][1]))
+        if e[0] == "call" and e[1][0] == "path" and e[1][1] == ["PString", "serialize_string"] and len(e[2]) == 2:
+            b = self.ex(e[2][0])
+            return ("list", f"[(({b}).length, 1), (leNat ({b}), ({b}).length)]")
         if e[0] == "mcall" and e[2] == "serialize" and len(e[3]) == 1 and e[3][0][0] == "path" and e[3][0][1] == [ser]:
             key = self.rust_text(e[1])
+            # a field of `self` whose type is known from the struct definition in the source
+            fm = re.fullmatch(r"self\.(\w+)(?:\.get\(\))?", key)
+            if fm and key not in self.cfg.get("serializes", {}) and fm.group(1) in self.cfg.get("struct_fields", {}):
+                ty = re.findall(r"\w+", self.cfg["struct_fields"][fm.group(1)])[-1]
+                width = self.cfg.get("type_widths", {}).get(ty)
+                if width is None:
+                    raise Untranslatable("width of type not known from the source: " + ty)
+                val = self.cfg.get("self_fields", {}).get(fm.group(1))
+                if val is None:
+                    raise Untranslatable("self field not mapped: " + fm.group(1))
+                return ("one", val, str(width))
             if key in self.cfg.get("serializes", {}):
                 v = self.cfg["serializes"][key]
                 if isinstance(v, tuple):
